@@ -266,6 +266,14 @@ func (m *BatchMon) OnEvent(c *eng.Ctx, ms eng.MState, ev *eng.Event) eng.MState 
 				s.execIdx, s.flagRead, s.flagReadOK, s.flagSet, s.chainOpen = nil, nil, false, false, false
 				var keep []covRec
 				for _, x := range s.recs {
+					isFill := (x.base != nil && x.base.K == eng.KSliceOf) || (x.emptyOf != nil && x.emptyOf.K == eng.KSliceOf)
+					if isFill && x.loop != ev.Site {
+						// slots beyond the current item were marked, yet the item loop goes on: later iterations overwrite / contradict the marks
+						if x.base != nil {
+							chk("C06.R2,C09.R3", "fill-then-continue", false, "the remaining slots were marked as skipped but the item loop continues")
+						}
+						continue
+					}
 					if x.base != nil || x.emptyOf != nil || x.loop == ev.Site {
 						keep = append(keep, x)
 					}
@@ -521,6 +529,11 @@ func (m *BatchMon) onStore(c *eng.Ctx, s batchState, life lifeState, ev *eng.Eve
 		loop, _ = eng.IVLoop(k.S)
 	}
 	s.cow()
+	if s.inTask > 0 && strings.Contains(loop, "$task") {
+		// a loop running inside a task writes slots: a task may only write its own slot
+		chk("C06.R2,C07.R4", "slot-store", false, "a concurrent task writes result slots other than its own ("+base.Pretty()+"["+idx.Pretty()+"]): it can overwrite the outcome another item has already stored")
+		return s
+	}
 	r := s.rec(loop)
 	if loop == "" || r == nil {
 		chk("C06.R2", "slot-store", false, "a result slot is written at index "+idx.Pretty()+", which is not the index of the current iteration")
